@@ -341,8 +341,8 @@ def struct_pack(I: Any, args: List[Term], st: Any, ctx: Any, node: ast.AST) -> T
         return top("struct.pack with non-constant format")
     fmt = args[0][1] if isinstance(args[0][1], str) else args[0][1].decode()
     parsed = _fmt_parts(fmt)
-    if parsed is None or parsed[0] in ("@", "="):
-        # native order/size: platform dependent -> refuse to guess
+    if parsed is None or (parsed[0] in ("@", "=") and any(sz != 1 for _, sz in parsed[1])):
+        # native order/size: platform dependent -> refuse to guess (single bytes have no order)
         return top(f"struct.pack format {fmt!r} not understood")
     order, items = parsed
     if len(items) != len(args) - 1:
